@@ -167,7 +167,10 @@ def record_case(seed):
         ns = rng.choice([1, 2, 3, 5])
         data = np.zeros((h, w))
         scalar_bg = rng.random() < 0.3
-        out = detect_threshold(data, ns, background=(float(bg[0][0]) if scalar_bg else np.array(bg, float)), error=np.array(err, float))
+        bga, era = (float(bg[0][0]) if scalar_bg else np.array(bg, float)), np.array(err, float)
+        if seed % 2:      # the caller keeps using the same maps for several nsigma values: the recorded call is the second one
+            detect_threshold(data, rng.choice([2, 4]), background=bga, error=era)
+        out = detect_threshold(data, ns, background=bga, error=era)
         if scalar_bg:
             bg = [[bg[0][0]] * w for _ in range(h)]
         ok_int = np.all(out == np.round(out))
